@@ -1,5 +1,933 @@
+/-
+Helper lemmas for `Bolt.Props.C04Bkt` (`commitBk_refines`): `Bucket.rebalance` and
+`Bucket.spill` over the opened buckets of a write transaction.
+-/
 import Bolt.Model.BktInv
+import Bolt.Props.C04Tree
 namespace Bolt.Bkt.BktCommitL
 open Bolt Bolt.BTree Bolt.Bkt
+
+/-! ### `Bolt.BTree.tightN` (model copy) = `RebL.tightN` -/
+
+mutual
+theorem tightN_eq : ∀ (n : N) (lo : Option Bytes), Bolt.BTree.tightN lo n = RebL.tightN lo n
+  | .leaf _ _, lo => by simp only [Bolt.BTree.tightN, RebL.tightN]
+  | .branch _ kids, lo => by
+    simp only [Bolt.BTree.tightN, RebL.tightN, tightKids_eq kids lo]
+    cases lo <;> rfl
+theorem tightKids_eq : ∀ (kids : List (Bytes × N)) (lo : Option Bytes),
+    Bolt.BTree.tightKids lo kids = RebL.tightKids lo kids
+  | [], lo => by simp only [Bolt.BTree.tightKids, RebL.tightKids]
+  | (_, c) :: r, lo => by
+    simp only [Bolt.BTree.tightKids, RebL.tightKids, tightN_eq c lo, tightKids_eq r _]
+end
+
+/-! ### the content of a tree up to the values of bucket elements -/
+
+/-- what the abstraction reads of an item: key, bucket flag, value unless a bucket -/
+def normI (i : Item) : Bytes × Bool × Bytes :=
+  (i.key, decide (i.flags % 2 = 1), if i.flags % 2 = 1 then [] else i.val)
+
+def nf (t : N) : List (Bytes × Bool × Bytes) := (flatten t).map normI
+
+def namesOf (l : List (Bytes × Bool × Bytes)) : List Bytes :=
+  l.filterMap (fun x => if x.2.1 then some x.1 else none)
+
+theorem bucketNames_nf (t : N) : bucketNames t = namesOf (nf t) := by
+  unfold bucketNames namesOf nf
+  rw [List.filterMap_map]
+  congr 1
+  funext i
+  simp only [Function.comp, normI]
+  by_cases h : i.flags % 2 = 1 <;> simp [h]
+
+theorem mem_namesOf {l : List (Bytes × Bool × Bytes)} {x : Bytes × Bool × Bytes} (hx : x ∈ l)
+    (hb : x.2.1 = true) : x.1 ∈ namesOf l := by
+  unfold namesOf
+  rw [List.mem_filterMap]
+  exact ⟨x, hx, by simp [hb]⟩
+
+theorem nf_length (t t' : N) (h : nf t' = nf t) : (flatten t').length = (flatten t).length := by
+  have := congrArg List.length h
+  simpa [nf] using this
+
+theorem mem_bucketNames {t : N} {n : Bytes} (h : n ∈ bucketNames t) :
+    ∃ x ∈ flatten t, x.key = n ∧ x.flags % 2 = 1 := by
+  unfold bucketNames at h
+  rw [List.mem_filterMap] at h
+  obtain ⟨x, hx, he⟩ := h
+  by_cases hf : x.flags % 2 = 1
+  · rw [if_pos hf] at he
+    exact ⟨x, hx, by simpa using he, hf⟩
+  · rw [if_neg hf] at he; cases he
+
+/-! ### `lookupBk` -/
+
+theorem lookupBk_nil (k : Bytes) : lookupBk k [] = none := rfl
+
+theorem lookupBk_cons (k : Bytes) (p : Bytes × Bk) (r : List (Bytes × Bk)) :
+    lookupBk k (p :: r) = if p.1 = k then some p.2 else lookupBk k r := by
+  unfold lookupBk
+  rw [List.find?_cons]
+  by_cases h : p.1 = k
+  · simp [h]
+  · have : (p.1 == k) = false := by simpa using h
+    simp [this, h]
+
+theorem lookupBk_mem {k : Bytes} {o : List (Bytes × Bk)} {c : Bk} (h : lookupBk k o = some c) :
+    (k, c) ∈ o := by
+  induction o with
+  | nil => cases h
+  | cons p r ih =>
+    rw [lookupBk_cons] at h
+    by_cases hp : p.1 = k
+    · rw [if_pos hp] at h
+      cases h
+      subst hp
+      exact List.mem_cons_self ..
+    · rw [if_neg hp] at h
+      exact List.mem_cons_of_mem _ (ih h)
+
+theorem lookupBk_isSome_iff (k : Bytes) (o : List (Bytes × Bk)) :
+    (lookupBk k o).isSome = true ↔ k ∈ o.map (·.1) := by
+  induction o with
+  | nil => simp [lookupBk_nil]
+  | cons p r ih =>
+    rw [lookupBk_cons]
+    by_cases hp : p.1 = k
+    · simp [hp]
+    · rw [if_neg hp, ih]
+      simp only [List.map_cons, List.mem_cons]
+      constructor
+      · exact Or.inr
+      · rintro (h | h)
+        · exact absurd h.symm hp
+        · exact h
+
+/-- two caches with the same names whose buckets are related name by name -/
+inductive Rel2 (R : Bytes → Bk → Bk → Prop) : List (Bytes × Bk) → List (Bytes × Bk) → Prop
+  | nil : Rel2 R [] []
+  | cons {p q : Bytes × Bk} {r r' : List (Bytes × Bk)} :
+      (q.1 = p.1 ∧ R p.1 p.2 q.2) → Rel2 R r r' → Rel2 R (p :: r) (q :: r')
+
+theorem lookupBk_rel {R : Bytes → Bk → Bk → Prop} : ∀ {o o' : List (Bytes × Bk)},
+    Rel2 R o o' → ∀ k,
+    (lookupBk k o = none ∧ lookupBk k o' = none) ∨
+      ∃ c c', lookupBk k o = some c ∧ lookupBk k o' = some c' ∧ R k c c'
+  | _, _, .nil, k => Or.inl ⟨rfl, rfl⟩
+  | _, _, .cons (p := p) (q := q) hpq hr, k => by
+    rw [lookupBk_cons, lookupBk_cons, hpq.1]
+    by_cases hp : p.1 = k
+    · rw [if_pos hp, if_pos hp]
+      exact Or.inr ⟨_, _, rfl, rfl, hp ▸ hpq.2⟩
+    · rw [if_neg hp, if_neg hp]
+      exact lookupBk_rel hr k
+
+theorem forall₂_names {R : Bytes → Bk → Bk → Prop} {o o' : List (Bytes × Bk)}
+    (h : Rel2 R o o') : o'.map (·.1) = o.map (·.1) := by
+  induction h with
+  | nil => rfl
+  | cons hpq _ ih => simp only [List.map_cons, hpq.1, ih]
+
+/-! ### `absBk` through the normal form -/
+
+/-- the content of the nested bucket `k` of a bucket at `path` with cache `o` -/
+def childAbs (orig : Bk) (f : Nat) (path : List Bytes) (o : List (Bytes × Bk)) (k : Bytes) : SVal :=
+  match lookupBk k o with
+  | some c => absBk orig f (path ++ [k]) c
+  | none =>
+    match bkAt (path ++ [k]) orig with
+    | some c => absBk c f [] c
+    | none => .bkt 0 []
+
+theorem absBk_succ (orig : Bk) (f : Nat) (path : List Bytes) (b : Bk) :
+    absBk orig (f+1) path b = .bkt b.seq ((nf b.tree).map (fun x =>
+      if x.2.1 then (x.1, childAbs orig f path b.opened x.1) else (x.1, .val x.2.2))) := by
+  rw [absBk, nf, List.map_map]
+  congr 1
+  apply List.map_congr_left
+  intro i _
+  simp only [Function.comp, normI, childAbs]
+  by_cases h : i.flags % 2 = 1
+  · simp only [h, decide_true, if_true]; rfl
+  · simp [h]
+
+theorem absBk_congr (orig : Bk) (f : Nat) (path : List Bytes) (b b' : Bk)
+    (hs : b'.seq = b.seq) (hn : nf b'.tree = nf b.tree)
+    (hc : ∀ k ∈ bucketNames b.tree, childAbs orig f path b'.opened k = childAbs orig f path b.opened k) :
+    absBk orig (f+1) path b' = absBk orig (f+1) path b := by
+  rw [absBk_succ, absBk_succ, hs, hn]
+  congr 1
+  apply List.map_congr_left
+  intro x hx
+  by_cases hb : x.2.1 = true
+  · rw [if_pos hb, if_pos hb, hc x.1 (by rw [bucketNames_nf]; exact mem_namesOf hx hb)]
+  · rw [if_neg hb, if_neg hb]
+
+theorem childAbs_some {orig : Bk} {f : Nat} {path : List Bytes} {o : List (Bytes × Bk)} {k : Bytes} {c : Bk}
+    (h : lookupBk k o = some c) : childAbs orig f path o k = absBk orig f (path ++ [k]) c := by
+  unfold childAbs; rw [h]
+
+theorem childAbs_none {orig : Bk} {f : Nat} {path : List Bytes} {o : List (Bytes × Bk)} {k : Bytes}
+    (h : lookupBk k o = none) : childAbs orig f path o k =
+      match bkAt (path ++ [k]) orig with
+      | some c => absBk c f [] c
+      | none => .bkt 0 [] := by
+  unfold childAbs; rw [h]
+
+theorem childAbs_rel {R : Bytes → Bk → Bk → Prop} {orig : Bk} {f : Nat} {path : List Bytes}
+    {o o' : List (Bytes × Bk)} (h : Rel2 R o o')
+    (hR : ∀ k c c', R k c c' → absBk orig f (path ++ [k]) c' = absBk orig f (path ++ [k]) c) (k : Bytes) :
+    childAbs orig f path o' k = childAbs orig f path o k := by
+  rcases lookupBk_rel h k with ⟨h1, h2⟩ | ⟨c, c', h1, h2, h3⟩
+  · rw [childAbs_none h1, childAbs_none h2]
+  · rw [childAbs_some h1, childAbs_some h2]
+    exact hR k c c' h3
+
+theorem rel2_mem_right {R : Bytes → Bk → Bk → Prop} {o o' : List (Bytes × Bk)} (h : Rel2 R o o') :
+    ∀ q ∈ o', ∃ p ∈ o, q.1 = p.1 ∧ R p.1 p.2 q.2 := by
+  induction h with
+  | nil => intro q hq; cases hq
+  | cons hpq _ ih =>
+    intro q hq
+    rcases List.mem_cons.mp hq with rfl | hq
+    · exact ⟨_, List.mem_cons_self .., hpq⟩
+    · obtain ⟨p, hp, h⟩ := ih q hq
+      exact ⟨p, List.mem_cons_of_mem _ hp, h⟩
+
+theorem rel2_append {R : Bytes → Bk → Bk → Prop} {a a' b b' : List (Bytes × Bk)} (h1 : Rel2 R a a')
+    (h2 : Rel2 R b b') : Rel2 R (a ++ b) (a' ++ b') := by
+  induction h1 with
+  | nil => exact h2
+  | cons hpq _ ih => exact .cons hpq ih
+
+/-! ### start-of-transaction buckets -/
+
+theorem origOkG_zero (ids : Bool) (b : Bk) : origOkG ids 0 b = false := by
+  cases b; rfl
+
+theorem origOkG_succ (ids : Bool) (f r s : Nat) (t : N) (o : List (Bytes × Bk)) :
+    origOkG ids (f+1) (.mk r s t o) = true ↔
+      Committed t ∧ (ids = true → (pgids t).Nodup) ∧ depth t ≤ f ∧ o.map (·.1) = bucketNames t ∧
+      ∀ p ∈ o, origOkG ids f p.2 = true := by
+  rw [origOkG]
+  simp only [Bool.and_eq_true, Bool.or_eq_true, Bool.not_eq_true', decide_eq_true_eq,
+    List.all_eq_true, beq_iff_eq]
+  constructor
+  · rintro ⟨⟨⟨⟨h1, h2⟩, h3⟩, h4⟩, h5⟩
+    refine ⟨h1, ?_, h3, h4, h5⟩
+    intro hi
+    rcases h2 with h2 | h2
+    · rw [hi] at h2; cases h2
+    · exact h2
+  · rintro ⟨h1, h2, h3, h4, h5⟩
+    refine ⟨⟨⟨⟨h1, ?_⟩, h3⟩, h4⟩, h5⟩
+    cases ids with
+    | false => exact Or.inl rfl
+    | true => exact Or.inr (h2 rfl)
+
+theorem bkAt_nil (b : Bk) : bkAt [] b = some b := by rw [bkAt]
+
+theorem bkAt_cons (n : Bytes) (rest : List Bytes) (b : Bk) :
+    bkAt (n :: rest) b = (lookupBk n b.opened).bind (bkAt rest) := by rw [bkAt]
+
+/-- the bucket found at a path of a start-of-transaction state is one, with the fuel left -/
+theorem origAt (ids : Bool) : ∀ (p : List Bytes) (fu : Nat) (b c : Bk), origOkG ids fu b = true →
+    bkAt p b = some c → origOkG ids (fu - p.length) c = true
+  | [], fu, b, c, h, hb => by
+    rw [bkAt_nil] at hb; cases hb; exact h
+  | n :: rest, 0, b, c, h, _ => by rw [origOkG_zero] at h; cases h
+  | n :: rest, f+1, .mk r s t o, c, h, hb => by
+    rw [bkAt_cons] at hb
+    cases hl : lookupBk n (Bk.mk r s t o).opened with
+    | none => rw [hl] at hb; cases hb
+    | some c0 =>
+      rw [hl] at hb
+      have hm := lookupBk_mem hl
+      have h0 := ((origOkG_succ ..).mp h).2.2.2.2 _ hm
+      have := origAt ids rest f c0 c h0 hb
+      simpa using this
+
+theorem origOkG_mono (ids : Bool) : ∀ (f : Nat) (b : Bk), origOkG ids f b = true → ∀ f', f ≤ f' →
+    origOkG false f' b = true
+  | 0, b, h, _, _ => by rw [origOkG_zero] at h; cases h
+  | f+1, .mk r s t o, h, 0, hle => by omega
+  | f+1, .mk r s t o, h, f'+1, hle => by
+    obtain ⟨h1, _, h3, h4, h5⟩ := (origOkG_succ ..).mp h
+    rw [origOkG_succ]
+    refine ⟨h1, fun hi => (by cases hi), by omega, h4, ?_⟩
+    intro p hp
+    exact origOkG_mono ids f p.2 (h5 p hp) f' (by omega)
+
+/-- the content of a start-of-transaction bucket does not depend on the fuel (once it covers
+    the nesting), nor on where the bucket sits -/
+theorem absBk_indep (ids : Bool) : ∀ (f : Nat) (c : Bk), origOkG ids f c = true → ∀ F', f ≤ F' →
+    ∀ (X : Bk) (p : List Bytes), absBk X F' p c = absBk c f [] c
+  | 0, c, h, _, _, _, _ => by rw [origOkG_zero] at h; cases h
+  | f+1, .mk r s t o, h, 0, hle, _, _ => by omega
+  | f+1, .mk r s t o, h, F'+1, hle, X, p => by
+    obtain ⟨_, _, _, h4, h5⟩ := (origOkG_succ ..).mp h
+    rw [absBk_succ, absBk_succ]
+    congr 1
+    apply List.map_congr_left
+    intro x hx
+    by_cases hb : x.2.1 = true
+    · rw [if_pos hb, if_pos hb]
+      have hn : x.1 ∈ bucketNames t := by rw [bucketNames_nf]; exact mem_namesOf hx hb
+      have hs : (lookupBk x.1 o).isSome = true := by rw [lookupBk_isSome_iff, h4]; exact hn
+      obtain ⟨c', hc'⟩ := Option.isSome_iff_exists.mp hs
+      have hm := lookupBk_mem hc'
+      have h0 := h5 _ hm
+      have e1 : childAbs X F' p (Bk.mk r s t o).opened x.1 = absBk X F' (p ++ [x.1]) c' := childAbs_some hc'
+      have e2 : childAbs (Bk.mk r s t o) f [] (Bk.mk r s t o).opened x.1 =
+          absBk (Bk.mk r s t o) f ([] ++ [x.1]) c' := childAbs_some hc'
+      rw [e1, e2, absBk_indep ids f c' h0 F' (by omega) X (p ++ [x.1]),
+        absBk_indep ids f c' h0 f (Nat.le_refl _) (Bk.mk r s t o) ([] ++ [x.1])]
+    · rw [if_neg hb, if_neg hb]
+
+/-! ### `Bucket.rebalance` -/
+
+/-- page ids of every node present in some opened bucket's node map (= `C04Bkt.allMatPgids`) -/
+def allMat (fu : Nat) : Nat → Bk → List Nat
+  | 0, _ => []
+  | f+1, .mk _ _ t o => matPgids fu t ++ (o.map (fun p => allMat fu f p.2)).flatten
+
+/-- (= `C04Bkt.fuelOk`) -/
+def fuelOk' (fu : Nat) : Nat → Bk → Bool
+  | 0, _ => false
+  | f+1, .mk _ _ t o => decide (depth t + (flatten t).length + 2 ≤ fu) && o.all (fun p => fuelOk' fu f p.2)
+
+theorem curOk_zero (orig : Bk) (path : List Bytes) (b : Bk) : curOk orig 0 path b = false := by
+  cases b; rfl
+
+theorem curOk_succ (orig : Bk) (f : Nat) (path : List Bytes) (r s : Nat) (t : N) (o : List (Bytes × Bk)) :
+    curOk orig (f+1) path (.mk r s t o) = true ↔
+      InTx t ∧ Bolt.BTree.tightN none t = true ∧ (pgids t).Nodup ∧ depth t ≤ f ∧
+      nodupB (o.map (·.1)) = true ∧
+      (∀ p ∈ o, p.1 ∈ bucketNames t ∧ curOk orig f (path ++ [p.1]) p.2 = true) ∧
+      (∀ n ∈ bucketNames t, (lookupBk n o).isSome = true ∨ (bkAt (path ++ [n]) orig).isSome = true) := by
+  rw [curOk]
+  simp only [Bool.and_eq_true, Bool.or_eq_true, decide_eq_true_eq, List.all_eq_true,
+    List.contains_iff_mem, and_assoc]
+
+/-- the state between `Bucket.rebalance` and `Bucket.spill` -/
+def midOk (orig : Bk) (fu : Nat) : Nat → List Bytes → Bk → Prop
+  | 0, _, _ => False
+  | f+1, path, .mk _ _ t o =>
+    InTx t ∧ anyUnb t = false ∧ depth t + (flatten t).length + 2 ≤ fu ∧
+    (∀ p ∈ o, p.1 ∈ bucketNames t ∧ midOk orig fu f (path ++ [p.1]) p.2) ∧
+    (∀ n ∈ bucketNames t, (lookupBk n o).isSome = true ∨ (bkAt (path ++ [n]) orig).isSome = true)
+
+def rebStep (g : Bk → Option Bk) (acc : Option (List (Bytes × Bk))) (p : Bytes × Bk) :
+    Option (List (Bytes × Bk)) :=
+  match acc with
+  | none => none
+  | some l => (g p.2).map (fun c => l ++ [(p.1, c)])
+
+theorem rebalanceBk_succ (th fu : Nat) (order : List Nat) (f r s : Nat) (t : N) (o : List (Bytes × Bk)) :
+    rebalanceBk th fu order (f+1) (.mk r s t o) =
+      match rebalanceAll th fu t order with
+      | none => none
+      | some t' => (o.foldl (rebStep (rebalanceBk th fu order f)) (some [])).map (fun o' => .mk r s t' o') := by
+  rw [rebalanceBk]; rfl
+
+theorem foldl_rebStep (g : Bk → Option Bk) (R : Bytes → Bk → Bk → Prop) :
+    ∀ (o acc : List (Bytes × Bk)), (∀ p ∈ o, ∃ c, g p.2 = some c ∧ R p.1 p.2 c) →
+    ∃ o', o.foldl (rebStep g) (some acc) = some (acc ++ o') ∧ Rel2 R o o'
+  | [], acc, _ => ⟨[], by simp, .nil⟩
+  | p :: r, acc, h => by
+    obtain ⟨c, hc, hR⟩ := h p (List.mem_cons_self ..)
+    obtain ⟨o', ho', hrel⟩ := foldl_rebStep g R r (acc ++ [(p.1, c)])
+      (fun q hq => h q (List.mem_cons_of_mem _ hq))
+    refine ⟨(p.1, c) :: o', ?_, .cons ⟨rfl, hR⟩ hrel⟩
+    rw [List.foldl_cons]
+    have : rebStep g (some acc) p = some (acc ++ [(p.1, c)]) := by
+      simp only [rebStep, hc, Option.map_some]
+    rw [this, ho']
+    simp
+
+theorem rebalanceBk_ok (orig : Bk) (rth fu : Nat) (order : List Nat) :
+    ∀ (f : Nat) (path : List Bytes) (b : Bk), f ≤ fu → curOk orig f path b = true →
+    fuelOk' fu f b = true → (∀ pg ∈ allMat fu f b, pg ∈ order) →
+    ∃ b', rebalanceBk rth fu order f b = some b' ∧ midOk orig fu f path b' ∧
+      absBk orig f path b' = absBk orig f path b
+  | 0, path, b, _, hc, _, _ => by rw [curOk_zero] at hc; cases hc
+  | f+1, path, .mk r s t o, hle, hc, hf, hm => by
+    obtain ⟨h1, h2, h3, h4, _, h6, h7⟩ := (curOk_succ ..).mp hc
+    rw [fuelOk'] at hf
+    simp only [Bool.and_eq_true, decide_eq_true_eq, List.all_eq_true] at hf
+    rw [allMat] at hm
+    have hR : InTxR t := RebL.inTxR_of_inTx_tight t h1 (by rw [← tightN_eq]; exact h2)
+    obtain ⟨t', e1, hR', hfl, hd⟩ := C04Tree.rebalanceAll_refines rth fu t order hR
+    have hu : anyUnb t' = false :=
+      C04Tree.rebalanceAll_settles rth fu t t' order hR h3 (by omega)
+        (fun pg hpg => hm pg (List.mem_append_left _ hpg)) e1
+    have hbn : bucketNames t' = bucketNames t := by unfold bucketNames; rw [hfl]
+    have hnf : nf t' = nf t := by unfold nf; rw [hfl]
+    obtain ⟨o', e2, hrel⟩ := foldl_rebStep (rebalanceBk rth fu order f)
+      (fun k c c' => midOk orig fu f (path ++ [k]) c' ∧
+        absBk orig f (path ++ [k]) c' = absBk orig f (path ++ [k]) c) o [] (by
+        intro p hp
+        obtain ⟨c, hc1, hc2, hc3⟩ := rebalanceBk_ok orig rth fu order f (path ++ [p.1]) p.2 (by omega)
+          (h6 p hp).2 (hf.2 p hp) (fun pg hpg => hm pg (List.mem_append_right _
+            (List.mem_flatten.mpr ⟨_, List.mem_map.mpr ⟨p, hp, rfl⟩, hpg⟩)))
+        exact ⟨c, hc1, hc2, hc3⟩)
+    rw [List.nil_append] at e2
+    refine ⟨.mk r s t' o', ?_, ?_, ?_⟩
+    · rw [rebalanceBk_succ, e1]; simp only [e2, Option.map_some]
+    · rw [midOk]
+      refine ⟨C04Tree.inTxR_inTx t' hR', hu, by rw [hfl]; omega, ?_, ?_⟩
+      · intro q hq
+        obtain ⟨p, hp, hqp, hmid, _⟩ := rel2_mem_right hrel q hq
+        rw [hqp, hbn]
+        exact ⟨(h6 p hp).1, hmid⟩
+      · intro n hn
+        rw [hbn] at hn
+        rcases h7 n hn with h | h
+        · left
+          rw [lookupBk_isSome_iff] at h ⊢
+          rw [forall₂_names hrel]; exact h
+        · exact Or.inr h
+    · apply absBk_congr orig f path (.mk r s t o) (.mk r s t' o') rfl hnf
+      intro k _
+      exact childAbs_rel hrel (fun k c c' h => h.2) k
+
+/-! ### rewriting the element of a nested bucket in its parent's tree -/
+
+theorem leafPutF_eq (k v : Bytes) (fl : Nat) (h : Hd) (items : List Item) :
+    leafPutF k v fl (.leaf h items) = some (.leaf h (insSorted { key := k, val := v, flags := fl } items)) := by
+  rw [← OpsL.putItems_eq]
+  unfold leafPutF OpsL.putItems
+  simp only
+  split <;> rfl
+
+theorem leafOK_putF (k v : Bytes) (fl : Nat) (hk : k ≠ []) :
+    OpsL.LeafOK k (leafPutF k v fl) (insSorted { key := k, val := v, flags := fl }) := by
+  intro root lo hi h items hm hn hr
+  refine ⟨h, leafPutF_eq k v fl h items, hm, rfl, rfl, ?_⟩
+  rw [OpsL.inTxN_leaf] at hn ⊢
+  obtain ⟨h1, _, h3, h4⟩ := hn
+  refine ⟨h1, Or.inr (Or.inl ?_), OpsL.insSorted_sorted _ items h3, ?_⟩
+  · intro e
+    have := OpsL.insSorted_find_same { key := k, val := v, flags := fl } items
+    rw [e] at this; simp at this
+  · intro x hx
+    rcases OpsL.insSorted_mem _ items x hx with rfl | hx
+    · exact ⟨hk, hr⟩
+    · exact h4 x hx
+
+theorem anyUnb_leaf (h : Hd) (items : List Item) : anyUnb (.leaf h items) = h.unb := by rw [anyUnb]
+theorem anyUnb_branch (h : Hd) (kids : List (Bytes × N)) :
+    anyUnb (.branch h kids) = (h.unb || anyUnbKids kids) := by rw [anyUnb]
+
+theorem anyUnb_materialize (n : N) (h : anyUnb n = false) : anyUnb (materialize n) = false := by
+  unfold materialize
+  split
+  · exact h
+  · cases n with
+    | leaf hd items => simp only [N.setHd, anyUnb_leaf]
+    | branch hd kids =>
+      rw [anyUnb_branch, Bool.or_eq_false_iff] at h
+      simp only [N.setHd, anyUnb_branch, h.2, Bool.or_self]
+
+theorem modifyAt_anyUnb (g : N → Option N) (hg : ∀ n n', g n = some n' → anyUnb n = false → anyUnb n' = false) :
+    ∀ (path : List Nat) (n n' : N), modifyAt g path n = some n' → anyUnb n = false → anyUnb n' = false
+  | [], n, n', h, hu => by
+    rw [modifyAt] at h
+    exact hg _ _ h (anyUnb_materialize n hu)
+  | i :: rest, n, n', h, hu => by
+    rw [modifyAt] at h
+    have hm := anyUnb_materialize n hu
+    cases hn : materialize n with
+    | leaf hd items => rw [hn] at h; cases h
+    | branch hd kids =>
+      rw [hn] at h hm
+      simp only at h
+      cases hk : kids[i]? with
+      | none => rw [hk] at h; cases h
+      | some sc =>
+        obtain ⟨sk, c⟩ := sc
+        rw [hk] at h
+        simp only at h
+        cases hc : modifyAt g rest c with
+        | none => rw [hc] at h; cases h
+        | some c' =>
+          rw [hc] at h
+          simp only [Option.map_some, Option.some.injEq] at h
+          subst h
+          rw [anyUnb_branch, Bool.or_eq_false_iff] at hm
+          rw [anyUnb_branch, Bool.or_eq_false_iff]
+          refine ⟨hm.1, ?_⟩
+          have hall := (SpillL.anyUnbKids_iff kids).mp hm.2
+          rw [SpillL.anyUnbKids_iff]
+          intro q hq
+          rcases List.mem_or_eq_of_mem_set hq with hq | rfl
+          · exact hall q hq
+          · exact modifyAt_anyUnb g hg rest c c' hc (hall _ (List.mem_of_getElem? hk))
+
+theorem leafPutF_anyUnb (k v : Bytes) (fl : Nat) :
+    ∀ n n', leafPutF k v fl n = some n' → anyUnb n = false → anyUnb n' = false
+  | .leaf h items, n', e, hu => by
+    rw [leafPutF_eq] at e
+    cases e
+    rw [anyUnb_leaf] at hu ⊢
+    exact hu
+  | .branch _ _, n', e, _ => by rw [leafPutF] at e; cases e
+
+/-- replacing an element by one the abstraction does not tell apart -/
+theorem insSorted_norm (it : Item) : ∀ (l : List Item), OpsL.SortedI l → ∀ x ∈ l, x.key = it.key →
+    normI x = normI it → (insSorted it l).map normI = l.map normI
+  | [], _, x, hx, _, _ => by cases hx
+  | y :: r, hs, x, hx, hk, hn => by
+    have hs' := List.pairwise_cons.mp hs
+    rw [OpsL.insSorted_cons]
+    by_cases h1 : it.key = y.key
+    · have hxy : x = y := by
+        rcases List.mem_cons.mp hx with h | h
+        · exact h
+        · exact absurd (hk.trans h1).symm (Bytes.lt_ne (hs'.1 x h))
+      subst hxy
+      simp only [h1, beq_self_eq_true, if_true, List.map_cons, hn]
+    · have h1' : (it.key == y.key) = false := by simpa using h1
+      have hxr : x ∈ r := by
+        rcases List.mem_cons.mp hx with h | h
+        · subst h; exact absurd hk.symm h1
+        · exact h
+      have h2 : ¬ Bytes.lt it.key y.key = true := by
+        have := hs'.1 x hxr
+        rw [hk] at this
+        rw [Bytes.lt_asymm this]; exact Bool.noConfusion
+      simp only [h1', Bool.false_eq_true, if_false, if_neg h2, List.map_cons,
+        insSorted_norm it r hs'.2 x hxr hk hn]
+
+theorem find_sorted : ∀ (l : List Item), OpsL.SortedI l → ∀ x ∈ l,
+    l.find? (fun i => i.key == x.key) = some x
+  | [], _, x, hx => by cases hx
+  | y :: r, hs, x, hx => by
+    have hs' := List.pairwise_cons.mp hs
+    by_cases h1 : y.key = x.key
+    · rw [OpsL.find_cons_eq r h1]
+      rcases List.mem_cons.mp hx with h | h
+      · rw [h]
+      · exact absurd h1 (Bytes.lt_ne (hs'.1 x h))
+    · rw [OpsL.find_cons_ne r h1]
+      rcases List.mem_cons.mp hx with h | h
+      · subst h; exact absurd rfl h1
+      · exact find_sorted r hs'.2 x h
+
+theorem inTx_sortedI (t : N) (h : InTx t) : OpsL.SortedI (flatten t) := by
+  have := (SpillL.inTx_flatten_sorted t true true none none h).1
+  rw [List.pairwise_map] at this
+  exact this
+
+/-- `Bucket.spill` rewrites the element `name` of the parent: the seek finds it, the put
+    replaces its value; nothing the abstraction or the spill depends on changes -/
+theorem rewrite_ok (fu : Nat) (t : N) (name : Bytes) (vlen : Nat) (hi : InTx t) (hu : anyUnb t = false)
+    (hd : depth t ≤ fu) (hn : name ∈ bucketNames t) :
+    ∃ it t', seekItem name fu t = some it ∧ it.key = name ∧ it.flags % 2 = 1 ∧
+      modifyAt (leafPutF name (zeros vlen) 1) (searchPath name fu t) t = some t' ∧
+      InTx t' ∧ anyUnb t' = false ∧ depth t' = depth t ∧ nf t' = nf t := by
+  obtain ⟨x, hx, hxk, hxf⟩ := mem_bucketNames hn
+  have hs := inTx_sortedI t hi
+  have hne : name ≠ [] := hxk ▸ (OpsL.inTxN_range t true true none none hi x hx).1
+  have hseek := OpsL.seek_find name fu t true true none none hd hi (OpsL.inR_none name)
+  have hfind := find_sorted (flatten t) hs x hx
+  rw [hxk] at hfind
+  rw [hfind] at hseek
+  have hsk : seekItem name fu t = some x := by
+    cases hsi : seekItem name fu t with
+    | none => rw [hsi] at hseek; simp at hseek
+    | some y =>
+      rw [hsi] at hseek
+      simp only [Option.filter] at hseek
+      split at hseek
+      · exact hseek.symm
+      · cases hseek
+  obtain ⟨t', e, hin, _, hd', hfl⟩ := OpsL.modify_ok name (leafPutF name (zeros vlen) 1)
+    (insSorted { key := name, val := zeros vlen, flags := 1 }) (leafOK_putF name _ 1 hne)
+    (OpsL.loc_insSorted { key := name, val := zeros vlen, flags := 1 }) fu t true true none none hd hi
+    (OpsL.inR_none name)
+  refine ⟨x, t', hsk, hxk, hxf, e, hin, ?_, hd', ?_⟩
+  · exact modifyAt_anyUnb _ (leafPutF_anyUnb name _ 1) _ t t' e hu
+  · unfold nf
+    rw [hfl]
+    apply insSorted_norm _ _ hs x hx hxk
+    simp [normI, hxk, hxf]
+
+/-! ### `Bucket.spill` -/
+
+/-- what `Bucket.spill` does with one opened sub-bucket: the bucket as written, whether it had
+    a root node, the length of the value written into the parent -/
+def childRes (ps : Nat) (g : Bk → Option (Bk × Bool)) (child : Bk) : Option (Bk × Bool × Nat) :=
+  if inlineableBk ps child then some (asInline child, true, 16 + child.tree.size)
+  else (g child).map (fun (c, had) => (c, had, 16))
+
+def spillStep (ps fu : Nat) (g : Bk → Option (Bk × Bool)) (acc : Option (N × List (Bytes × Bk)))
+    (p : Bytes × Bk) : Option (N × List (Bytes × Bk)) :=
+  match acc with
+  | none => none
+  | some (t, done) =>
+    match childRes ps g p.2 with
+    | none => none
+    | some (c, hadRoot, vlen) =>
+      if !hadRoot then some (t, done ++ [(p.1, c)]) else
+      match seekItem p.1 fu t with
+      | some it =>
+        if it.key = p.1 ∧ it.flags % 2 = 1 then
+          (modifyAt (leafPutF p.1 (zeros vlen) 1) (searchPath p.1 fu t) t).map (fun t' => (t', done ++ [(p.1, c)]))
+        else none
+      | none => none
+
+theorem spillBk_succ (ps sth fu f r s : Nat) (t : N) (o : List (Bytes × Bk)) :
+    spillBk ps sth fu (f+1) (.mk r s t o) =
+      match o.foldl (spillStep ps fu (spillBk ps sth fu f)) (some (t, [])) with
+      | none => none
+      | some (t1, o') =>
+        if !t1.hd.mat then some (.mk r s t1 o', false) else
+        (spillRoot ps sth fu t1).map (fun t2 => (.mk newPage s t2 o', true)) := by
+  rw [spillBk]; rfl
+
+/-- what the fold keeps of the parent's tree -/
+def TreeInv (nf0 : List (Bytes × Bool × Bytes)) (d : Nat) (t : N) : Prop :=
+  InTx t ∧ anyUnb t = false ∧ depth t = d ∧ nf t = nf0
+
+theorem foldl_spillStep (ps fu : Nat) (g : Bk → Option (Bk × Bool)) (R : Bytes → Bk → Bk → Prop)
+    (nf0 : List (Bytes × Bool × Bytes)) (d : Nat) (hd : d ≤ fu) :
+    ∀ (o : List (Bytes × Bk)) (t : N) (done : List (Bytes × Bk)), TreeInv nf0 d t →
+    (∀ p ∈ o, p.1 ∈ namesOf nf0 ∧ ∃ c had vlen, childRes ps g p.2 = some (c, had, vlen) ∧ R p.1 p.2 c) →
+    ∃ t1 o', o.foldl (spillStep ps fu g) (some (t, done)) = some (t1, done ++ o') ∧
+      TreeInv nf0 d t1 ∧ Rel2 R o o'
+  | [], t, done, ht, _ => ⟨t, [], by simp, ht, .nil⟩
+  | p :: r, t, done, ht, h => by
+    obtain ⟨hn, c, had, vlen, hc, hR⟩ := h p (List.mem_cons_self ..)
+    have hrest := fun q hq => h q (List.mem_cons_of_mem _ hq)
+    rw [List.foldl_cons]
+    cases had with
+    | false =>
+      have e : spillStep ps fu g (some (t, done)) p = some (t, done ++ [(p.1, c)]) := by
+        simp only [spillStep, hc, Bool.not_false, if_true]
+      obtain ⟨t1, o', e1, ht1, hrel⟩ := foldl_spillStep ps fu g R nf0 d hd r t (done ++ [(p.1, c)]) ht hrest
+      refine ⟨t1, (p.1, c) :: o', ?_, ht1, .cons ⟨rfl, hR⟩ hrel⟩
+      rw [e, e1]; simp
+    | true =>
+      obtain ⟨hi, hu, hdt, hnf⟩ := ht
+      obtain ⟨it, t', hs, hk, hfl, hm, hi', hu', hd', hnf'⟩ := rewrite_ok fu t p.1 vlen hi hu (by omega)
+        (by rw [bucketNames_nf, hnf]; exact hn)
+      have e : spillStep ps fu g (some (t, done)) p = some (t', done ++ [(p.1, c)]) := by
+        simp only [spillStep, hc, Bool.not_true, Bool.false_eq_true, if_false, hs, hk, hfl, and_self,
+          if_true, hm, Option.map_some]
+      obtain ⟨t1, o', e1, ht1, hrel⟩ := foldl_spillStep ps fu g R nf0 d hd r t' (done ++ [(p.1, c)])
+        ⟨hi', hu', by omega, by rw [hnf', hnf]⟩ hrest
+      refine ⟨t1, (p.1, c) :: o', ?_, ht1, .cons ⟨rfl, hR⟩ hrel⟩
+      rw [e, e1]; simp
+
+/-- what `Bucket.spill` leaves: every opened bucket's tree is a committed tree, and every
+    nested bucket is opened or found in `orig` -/
+def outOk (orig : Bk) : Nat → List Bytes → Bk → Prop
+  | 0, _, _ => False
+  | f+1, path, .mk _ _ t o =>
+    Committed t ∧ (∀ p ∈ o, outOk orig f (path ++ [p.1]) p.2) ∧
+    (∀ n ∈ bucketNames t, (lookupBk n o).isSome = true ∨ (bkAt (path ++ [n]) orig).isSome = true)
+
+theorem inlineableAux_no_bucket (m : Nat) : ∀ (l : List (Node.El × Bool)) (sz : Nat),
+    Node.inlineableAux m sz l = true → ∀ e ∈ l, e.2 = false
+  | [], _, _, e, he => by cases he
+  | (el, b) :: r, sz, h, e, he => by
+    rw [Node.inlineableAux] at h
+    cases b with
+    | true => simp at h
+    | false =>
+      simp only [Bool.false_eq_true, if_false] at h
+      split at h
+      · cases h
+      · rcases List.mem_cons.mp he with rfl | he
+        · rfl
+        · exact inlineableAux_no_bucket m r _ h e he
+
+theorem inTx_leaf_committed (h : Hd) (items : List Item) (hi : InTx (.leaf h items)) :
+    Committed (.leaf written items) := by
+  obtain ⟨_, _, h3, h4⟩ := (OpsL.inTxN_leaf ..).mp hi
+  refine ⟨(OpsL.committedN_leaf ..).mpr ⟨rfl, rfl, Or.inl rfl, h3, fun x hx => (h4 x hx).1⟩, ?_⟩
+  rw [OpsL.flatten_leaf, OpsL.sortedKeys_items]
+  exact h3
+
+/-- a sub-bucket that fits is written inline -/
+theorem asInline_ok (orig : Bk) (ps fu : Nat) : ∀ (f : Nat) (path : List Bytes) (b : Bk),
+    midOk orig fu f path b → inlineableBk ps b = true →
+    outOk orig f path (asInline b) ∧ absBk orig f path (asInline b) = absBk orig f path b
+  | 0, _, _, h, _ => by rw [midOk] at h; exact h.elim
+  | f+1, path, .mk r s (.branch hd kids) o, _, hin => by
+    simp [inlineableBk, Bk.tree] at hin
+  | f+1, path, .mk r s (.leaf hd items) o, h, hin => by
+    rw [midOk] at h
+    obtain ⟨h1, _, _, h4, _⟩ := h
+    simp only [inlineableBk, Bk.tree, Bool.and_eq_true, Node.inlineable] at hin
+    have hnb : bucketNames (.leaf hd items) = [] := by
+      unfold bucketNames
+      rw [OpsL.flatten_leaf, List.filterMap_eq_nil_iff]
+      intro i hi
+      have := inlineableAux_no_bucket _ _ _ hin.2 _ (List.mem_map.mpr ⟨i, hi, rfl⟩)
+      simp only [beq_eq_false_iff_ne, ne_eq] at this
+      rw [if_neg this]
+    have ho : o = [] := by
+      cases o with
+      | nil => rfl
+      | cons p r =>
+        have := (h4 p (List.mem_cons_self ..)).1
+        rw [hnb] at this; cases this
+    subst ho
+    have hnb' : bucketNames (.leaf written items) = [] := by
+      unfold bucketNames at hnb ⊢
+      rw [OpsL.flatten_leaf] at hnb ⊢
+      exact hnb
+    refine ⟨?_, ?_⟩
+    · show outOk orig (f+1) path (.mk 0 s (.leaf written items) [])
+      rw [outOk]
+      refine ⟨inTx_leaf_committed hd items h1, fun p hp => (by cases hp), ?_⟩
+      intro n hn
+      rw [hnb'] at hn; cases hn
+    · show absBk orig (f+1) path (.mk 0 s (.leaf written items) []) = _
+      apply absBk_congr orig f path _ _ rfl
+      · simp only [nf, Bk.tree, OpsL.flatten_leaf]
+      · intro k _; rfl
+
+theorem committed_of_unmat (t : N) (hi : InTx t) (hm : t.hd.mat = false) : Committed t := by
+  refine ⟨SpillL.unmat_committed t true true none none hm hi, ?_⟩
+  rw [SpillL.sortedKeys_iff]
+  exact (SpillL.inTx_flatten_sorted t true true none none hi).1
+
+theorem spillBk_ok (orig : Bk) (ps sth fu : Nat) : ∀ (f : Nat) (path : List Bytes) (b : Bk),
+    midOk orig fu f path b →
+    ∃ b' had, spillBk ps sth fu f b = some (b', had) ∧ outOk orig f path b' ∧
+      absBk orig f path b' = absBk orig f path b
+  | 0, _, _, h => by rw [midOk] at h; exact h.elim
+  | f+1, path, .mk r s t o, h => by
+    rw [midOk] at h
+    obtain ⟨h1, h2, h3, h4, h5⟩ := h
+    obtain ⟨t1, o', e1, ⟨hi1, hu1, hd1, hnf1⟩, hrel⟩ := foldl_spillStep ps fu (spillBk ps sth fu f)
+      (fun k c c' => outOk orig f (path ++ [k]) c' ∧
+        absBk orig f (path ++ [k]) c' = absBk orig f (path ++ [k]) c) (nf t) (depth t) (by omega)
+      o t [] ⟨h1, h2, rfl, rfl⟩ (by
+        intro p hp
+        obtain ⟨hp1, hp2⟩ := h4 p hp
+        refine ⟨by rw [← bucketNames_nf]; exact hp1, ?_⟩
+        by_cases hin : inlineableBk ps p.2 = true
+        · refine ⟨asInline p.2, true, 16 + p.2.tree.size, by simp only [childRes, hin, if_true], ?_⟩
+          exact asInline_ok orig ps fu f _ _ hp2 hin
+        · obtain ⟨c, had, hc1, hc2, hc3⟩ := spillBk_ok orig ps sth fu f (path ++ [p.1]) p.2 hp2
+          exact ⟨c, had, 16, by simp only [childRes, hin, Bool.false_eq_true, if_false, hc1, Option.map_some],
+            hc2, hc3⟩)
+    rw [List.nil_append] at e1
+    have hlen := nf_length t t1 hnf1
+    have hbn1 : bucketNames t1 = bucketNames t := by rw [bucketNames_nf, bucketNames_nf, hnf1]
+    -- the result, for either tree
+    have fin : ∀ (r' : Nat) (t2 : N), Committed t2 → nf t2 = nf t →
+        outOk orig (f+1) path (.mk r' s t2 o') ∧
+          absBk orig (f+1) path (.mk r' s t2 o') = absBk orig (f+1) path (.mk r s t o) := by
+      intro r' t2 hc2 hnf2
+      have hbn2 : bucketNames t2 = bucketNames t := by rw [bucketNames_nf, bucketNames_nf, hnf2]
+      refine ⟨?_, ?_⟩
+      · rw [outOk]
+        refine ⟨hc2, ?_, ?_⟩
+        · intro q hq
+          obtain ⟨p, _, hqp, hout, _⟩ := rel2_mem_right hrel q hq
+          rw [hqp]; exact hout
+        · intro n hn
+          rw [hbn2] at hn
+          rcases h5 n hn with h | h
+          · left
+            rw [lookupBk_isSome_iff] at h ⊢
+            rw [forall₂_names hrel]; exact h
+          · exact Or.inr h
+      · apply absBk_congr orig f path (.mk r s t o) (.mk r' s t2 o') rfl hnf2
+        intro k _
+        exact childAbs_rel hrel (fun k c c' h => h.2) k
+    rw [spillBk_succ, e1]
+    by_cases hm : t1.hd.mat = true
+    · obtain ⟨t2, e2, hc2, hfl2⟩ := C04Tree.spillRoot_refines ps sth fu t1 hi1 hu1 (by omega)
+      have := fin newPage t2 hc2 (by unfold nf at hnf1 ⊢; rw [hfl2]; exact hnf1)
+      refine ⟨.mk newPage s t2 o', true, ?_, this⟩
+      simp only [hm, Bool.not_true, Bool.false_eq_true, if_false, e2, Option.map_some]
+    · have hm' : t1.hd.mat = false := by simpa using hm
+      have := fin r t1 (committed_of_unmat t1 hi1 hm') hnf1
+      refine ⟨.mk r s t1 o', false, ?_, this⟩
+      simp only [hm', Bool.not_false, if_true]
+
+/-! ### what the next transaction reads -/
+
+/-- the nested bucket `n` as `full` attaches it -/
+def kidOf (orig : Bk) (f : Nat) (path : List Bytes) (o : List (Bytes × Bk)) (n : Bytes) : Option (Bytes × Bk) :=
+  match lookupBk n o with
+  | some c => some (n, full orig f (path ++ [n]) c)
+  | none => (bkAt (path ++ [n]) orig).map (fun c => (n, c))
+
+theorem full_succ (orig : Bk) (f : Nat) (path : List Bytes) (r s : Nat) (t : N) (o : List (Bytes × Bk)) :
+    full orig (f+1) path (.mk r s t o) = .mk r s t ((bucketNames t).filterMap (kidOf orig f path o)) := by
+  rw [full]; rfl
+
+theorem kidOf_fst {orig : Bk} {f : Nat} {path : List Bytes} {o : List (Bytes × Bk)} {n : Bytes} {q : Bytes × Bk}
+    (h : kidOf orig f path o n = some q) : q.1 = n := by
+  unfold kidOf at h
+  split at h
+  · cases h; rfl
+  · cases hb : bkAt (path ++ [n]) orig with
+    | none => rw [hb] at h; cases h
+    | some c => rw [hb] at h; cases h; rfl
+
+theorem fm_names (g : Bytes → Option (Bytes × Bk)) (hg : ∀ n q, g n = some q → q.1 = n) :
+    ∀ (l : List Bytes), (∀ n ∈ l, (g n).isSome = true) → (l.filterMap g).map (·.1) = l
+  | [], _ => rfl
+  | a :: r, h => by
+    obtain ⟨q, hq⟩ := Option.isSome_iff_exists.mp (h a (List.mem_cons_self ..))
+    rw [List.filterMap_cons, hq]
+    simp only [List.map_cons, hg a q hq, fm_names g hg r (fun n hn => h n (List.mem_cons_of_mem _ hn))]
+
+theorem fm_lookup (g : Bytes → Option (Bytes × Bk)) (hg : ∀ n q, g n = some q → q.1 = n) (k : Bytes) :
+    ∀ (l : List Bytes), (∀ n ∈ l, (g n).isSome = true) → k ∈ l →
+    lookupBk k (l.filterMap g) = (g k).map (·.2)
+  | [], _, hk => by cases hk
+  | a :: r, h, hk => by
+    obtain ⟨q, hq⟩ := Option.isSome_iff_exists.mp (h a (List.mem_cons_self ..))
+    rw [List.filterMap_cons, hq]
+    simp only
+    rw [lookupBk_cons, hg a q hq]
+    by_cases ha : a = k
+    · subst ha; rw [if_pos rfl, hq]; rfl
+    · rw [if_neg ha]
+      rcases List.mem_cons.mp hk with hk | hk
+      · exact absurd hk.symm ha
+      · exact fm_lookup g hg k r (fun n hn => h n (List.mem_cons_of_mem _ hn)) hk
+
+theorem exists_uniform {α : Type} (P : Nat → α → Prop) : ∀ (l : List α),
+    (∀ x ∈ l, ∃ F, ∀ F', F ≤ F' → P F' x) → ∃ F, ∀ F', F ≤ F' → ∀ x ∈ l, P F' x
+  | [], _ => ⟨0, fun _ _ x hx => by cases hx⟩
+  | a :: r, h => by
+    obtain ⟨F1, h1⟩ := h a (List.mem_cons_self ..)
+    obtain ⟨F2, h2⟩ := exists_uniform P r (fun x hx => h x (List.mem_cons_of_mem _ hx))
+    refine ⟨max F1 F2, ?_⟩
+    intro F' hF x hx
+    rcases List.mem_cons.mp hx with rfl | hx
+    · exact h1 F' (by omega)
+    · exact h2 F' (by omega) x hx
+
+theorem full_ok (orig : Bk) (fu : Nat) (ho : origOk fu orig = true) :
+    ∀ (f : Nat) (path : List Bytes) (b : Bk), f + path.length = fu → outOk orig f path b →
+    ∃ F, ∀ F', F ≤ F' → origOkG false F' (full orig f path b) = true ∧
+      ∀ (X : Bk) (p : List Bytes), absBk X F' p (full orig f path b) = absBk orig f path b
+  | 0, _, _, _, h => by rw [outOk] at h; exact h.elim
+  | f+1, path, .mk r s t o, hlev, h => by
+    rw [outOk] at h
+    obtain ⟨hc, hch, hnames⟩ := h
+    obtain ⟨F0, hF0⟩ := exists_uniform
+      (fun F' (q : Bytes × Bk) => origOkG false F' (full orig f (path ++ [q.1]) q.2) = true ∧
+        ∀ (X : Bk) (p : List Bytes),
+          absBk X F' p (full orig f (path ++ [q.1]) q.2) = absBk orig f (path ++ [q.1]) q.2) o
+      (fun q hq => full_ok orig fu ho f (path ++ [q.1]) q.2
+        (by rw [List.length_append, List.length_singleton]; omega) (hch q hq))
+    -- buckets taken from `orig`
+    have horig : ∀ n c, bkAt (path ++ [n]) orig = some c → origOkG true f c = true := by
+      intro n c hb
+      have := origAt true (path ++ [n]) fu orig c ho hb
+      rw [List.length_append, List.length_singleton] at this
+      have e : fu - (path.length + 1) = f := by omega
+      rw [e] at this; exact this
+    have hg : ∀ n q, kidOf orig f path o n = some q → q.1 = n := fun n q h => kidOf_fst h
+    have hsome : ∀ n ∈ bucketNames t, (kidOf orig f path o n).isSome = true := by
+      intro n hn
+      unfold kidOf
+      cases hl : lookupBk n o with
+      | some c => rfl
+      | none =>
+        rcases hnames n hn with h | h
+        · rw [hl] at h; cases h
+        · simp only [Option.isSome_map]; exact h
+    refine ⟨max (max F0 f) (depth t) + 1, ?_⟩
+    intro F' hF'
+    cases F' with
+    | zero => omega
+    | succ F'' =>
+    rw [full_succ]
+    refine ⟨?_, ?_⟩
+    · rw [origOkG_succ]
+      refine ⟨hc, fun hi => (by cases hi), by omega, fm_names _ hg _ hsome, ?_⟩
+      intro q hq
+      obtain ⟨n, hn, hq⟩ := List.mem_filterMap.mp hq
+      unfold kidOf at hq
+      cases hl : lookupBk n o with
+      | some c =>
+        rw [hl] at hq
+        cases hq
+        exact (hF0 F'' (by omega) (n, c) (lookupBk_mem hl)).1
+      | none =>
+        rw [hl] at hq
+        cases hb : bkAt (path ++ [n]) orig with
+        | none => rw [hb] at hq; cases hq
+        | some c =>
+          rw [hb] at hq
+          cases hq
+          exact origOkG_mono true f c (horig n c hb) F'' (by omega)
+    · intro X p
+      rw [absBk_succ, absBk_succ]
+      congr 1
+      apply List.map_congr_left
+      intro x hx
+      by_cases hb : x.2.1 = true
+      · rw [if_pos hb, if_pos hb]
+        have hn : x.1 ∈ bucketNames t := by rw [bucketNames_nf]; exact mem_namesOf hx hb
+        have hlk := fm_lookup _ hg x.1 _ hsome hn
+        congr 1
+        cases hl : lookupBk x.1 o with
+        | some c =>
+          have e1 : kidOf orig f path o x.1 = some (x.1, full orig f (path ++ [x.1]) c) := by
+            unfold kidOf; rw [hl]
+          rw [e1] at hlk
+          have e2 : childAbs orig f path (Bk.mk r s t o).opened x.1 = absBk orig f (path ++ [x.1]) c :=
+            childAbs_some hl
+          have e3 : childAbs X F'' p (Bk.mk r s t ((bucketNames t).filterMap (kidOf orig f path o))).opened x.1 =
+              absBk X F'' (p ++ [x.1]) (full orig f (path ++ [x.1]) c) := childAbs_some hlk
+          rw [e2, e3]
+          exact (hF0 F'' (by omega) (x.1, c) (lookupBk_mem hl)).2 X (p ++ [x.1])
+        | none =>
+          rcases hnames x.1 hn with h | h
+          · rw [hl] at h; cases h
+          · obtain ⟨c, hc'⟩ := Option.isSome_iff_exists.mp h
+            have e1 : kidOf orig f path o x.1 = some (x.1, c) := by
+              unfold kidOf; rw [hl, hc']; rfl
+            rw [e1] at hlk
+            have e2 : childAbs orig f path (Bk.mk r s t o).opened x.1 = absBk c f [] c := by
+              show childAbs orig f path o x.1 = _
+              rw [childAbs_none hl, hc']
+            have e3 : childAbs X F'' p (Bk.mk r s t ((bucketNames t).filterMap (kidOf orig f path o))).opened x.1 =
+                absBk X F'' (p ++ [x.1]) c := childAbs_some hlk
+            rw [e2, e3]
+            exact absBk_indep true f c (horig x.1 c hc') F'' (by omega) X (p ++ [x.1])
+      · rw [if_neg hb, if_neg hb]
+
+/-! ### the commit -/
+
+theorem commit_ok (ps sth rth fu : Nat) (orig cur : Bk) (order : List Nat)
+    (hw : WF fu orig cur) (hf : fuelOk' fu fu cur = true)
+    (hc : ∀ pg ∈ allMat fu fu cur, pg ∈ order) :
+    ∃ cur' fu', commitBk ps sth rth fu order cur = some cur' ∧
+      absTop fu orig cur' = absTop fu orig cur ∧
+      fu ≤ fu' ∧ origShapeOk fu' (full orig fu [] cur') = true ∧
+      absTop fu' (full orig fu [] cur') (full orig fu [] cur') = absTop fu orig cur := by
+  obtain ⟨ho, hcur⟩ := hw
+  obtain ⟨b1, e1, hmid, habs1⟩ := rebalanceBk_ok orig rth fu order fu [] cur (Nat.le_refl _) hcur hf hc
+  have key : ∃ cur', commitBk ps sth rth fu order cur = some cur' ∧ outOk orig fu [] cur' ∧
+      absBk orig fu [] cur' = absBk orig fu [] cur := by
+    unfold commitBk
+    rw [e1, Option.bind_some]
+    by_cases hin : inlineableBk ps b1 = true
+    · obtain ⟨h1, h2⟩ := asInline_ok orig ps fu fu [] b1 hmid hin
+      exact ⟨asInline b1, by rw [if_pos hin], h1, h2.trans habs1⟩
+    · obtain ⟨b2, had, e2, h1, h2⟩ := spillBk_ok orig ps sth fu fu [] b1 hmid
+      exact ⟨b2, by rw [if_neg hin, e2]; rfl, h1, h2.trans habs1⟩
+  obtain ⟨cur', e, hout, habs⟩ := key
+  obtain ⟨F, hF⟩ := full_ok orig fu ho fu [] cur' (by simp) hout
+  obtain ⟨hs, ha⟩ := hF (max F fu) (by omega)
+  refine ⟨cur', max F fu, e, ?_, by omega, hs, ?_⟩
+  · unfold absTop; rw [habs]
+  · unfold absTop; rw [ha, habs]
 
 end Bolt.Bkt.BktCommitL
